@@ -315,6 +315,8 @@ def r8_version_independent_of_padding(ctx):
 
 
 def run(ctx):
+    from . import C20 as _C20t
+    _C20t.r12_subtractions(ctx, _C20t.input_reachable(ctx))   # no subtraction (sizes, Durations) that can underflow and kill the task that computes it
     from . import effects
     effects.check_property(ctx, "C10")    # R10.E: no operation on shared protocol state outside the reviewed table
     from . import C02
